@@ -311,6 +311,30 @@ pub fn extra_pool() -> Vec<File> {
             }
         }
     }
+    // keys that begin with a keyword of the language (or, OR, not, in, when, some, exists, keys, let, rule): the first token
+    // of a line decides nothing about the line before it
+    {
+        let kk = |n: &str| vec![key(n)];
+        let kc = vec![
+            bin(kk("order"), BinOp::Eq, false, i(1)),
+            un(kk("ORigin"), UnOp::Exists, false),
+            bin(kk("origin"), BinOp::Eq, false, s("x")),
+            un(kk("notes"), UnOp::Exists, true),
+            bin(kk("inner"), BinOp::In, false, l(vec![i(1), i(2)])),
+            un(kk("whenever"), UnOp::IsString, false),
+            bin(kk("somekey"), BinOp::Eq, true, i(5)),
+            un(kk("existsx"), UnOp::Exists, false),
+            bin(vec![key("a"), key("order")], BinOp::Eq, false, i(1)),
+            un(a(), UnOp::Exists, false),
+            bin(kk("b"), BinOp::Eq, false, i(1)),
+        ];
+        for x in 0..kc.len() {
+            for y in (x + 1)..kc.len() {
+                out.push(file1(rule("r0", vec![vec![kc[x].clone()], vec![kc[y].clone()]])));
+                out.push(file1(rule("r0", vec![vec![kc[x].clone(), kc[y].clone()], vec![kc[(x + y) % kc.len()].clone()]])));
+            }
+        }
+    }
     // inside parameterised rules: plain queries, named-rule references, nested calls
     {
         let base_rule = rule("rb", vec![vec![un(a(), UnOp::Exists, false)]]);
@@ -344,6 +368,9 @@ pub fn case_docs() -> Vec<V> {
         m(vec![("Cfg", m(vec![("bucketName", s("camel")), ("BucketName", s("pascal"))])), ("Other", m(vec![("SomeKey", i(1))]))]),
         m(vec![("Cfg", m(vec![("BucketName", s("pascal")), ("bucketName", s("camel"))])), ("Other", m(vec![("someKey", i(1)), ("SomeKey", i(2))]))]),
         m(vec![("Cfg", m(vec![("bucket_name", s("camel")), ("BucketName", s("pascal"))])), ("Other", m(vec![("some_key", i(1))]))]),
+        // for the keyword-prefixed keys: the remainders after the keyword (der, igin, tes, ner, ever, key, x) exist too, with other values
+        m(vec![("a", m(vec![("order", i(1))])), ("order", i(2)), ("der", i(1)), ("origin", s("y")), ("igin", s("x")), ("notes", i(0)), ("tes", i(1)), ("inner", i(3)), ("ner", i(1)), ("whenever", i(1)), ("ever", s("s")), ("somekey", i(5)), ("key", i(1)), ("b", i(1))]),
+        m(vec![("a", i(1)), ("order", i(1)), ("der", i(2)), ("ORigin", s("x")), ("origin", s("x")), ("igin", s("y")), ("inner", i(1)), ("ner", i(9)), ("whenever", s("s")), ("somekey", i(1)), ("key", i(5)), ("existsx", i(1)), ("x", i(1)), ("b", i(2))]),
     ]
 }
 #[allow(non_snake_case)]
@@ -407,6 +434,59 @@ pub fn run(tier: &str) -> i32 {
             }
         }
     }, Acc::merge);
+    let mut res = res;
+    // ---- the test command judges a rule that is defined several times on all of its definitions: permuting the definitions
+    //      (and the other rules of the file) changes neither the exit code nor what is reported for any rule
+    {
+        use crate::cli::{cleanup_workdirs, cli_inproc, put, sv};
+        let defs = ["rule r { a == 1 }\n", "rule r { a == 2 }\n", "rule r when z exists { a == 1 }\n", "rule q { a exists }\n"];
+        // multisets of 2..3 definitions over {PASS, FAIL, SKIP definitions of r, another rule q}
+        let mut sets: Vec<Vec<usize>> = vec![];
+        for x in 0..4 {
+            for y in x..4 {
+                sets.push(vec![x, y]);
+                for z in y..4 {
+                    sets.push(vec![x, y, z]);
+                }
+            }
+        }
+        let mut tp = 0u64;
+        for set in &sets {
+            if !set.iter().any(|k| *k < 3) {
+                continue;
+            }
+            for exp in ["PASS", "FAIL", "SKIP"] {
+                let tf = format!("- name: t\n  input: {{a: 1}}\n  expectations:\n    rules:\n      r: {}\n", exp);
+                for fmt in [vec![], vec!["-o", "json"]] {
+                    let mut seen: Vec<(Vec<usize>, i32, String)> = vec![];
+                    for perm in perms(set.len()) {
+                        let order: Vec<usize> = perm.iter().map(|k| set[*k]).collect();
+                        let text: String = order.iter().map(|k| defs[*k]).collect();
+                        let rp = put("c04t/x.guard", &text);
+                        let tpth = put("c04t/x_tests.yaml", &tf);
+                        let mut argv = sv(&["test", "-r", &rp, "-t", &tpth]);
+                        argv.extend(sv(&fmt));
+                        let o = cli_inproc(&argv, "");
+                        tp += 1;
+                        res.acc.traces += 1;
+                        // the report, with the definitions' order taken out: sorted lines
+                        let mut lines: Vec<&str> = o.out.lines().collect();
+                        lines.sort();
+                        seen.push((order, o.status(), lines.join("\n")));
+                    }
+                    let first = seen[0].clone();
+                    for (order, st, _) in &seen[1..] {
+                        if *st != first.1 {
+                            res.acc.violate("test-command-definition-order", format!("test exits {} with the definitions in the order {:?} and {} in the order {:?} (expectation r: {})", first.1, first.0, st, order, exp), json!({"kind":"cli","argv":["test","-r","x.guard","-t","x_tests.yaml"],"stdin":"","files":{"x.guard": order.iter().map(|k| defs[*k]).collect::<String>(),"x_tests.yaml":tf,"other order": first.0.iter().map(|k| defs[*k]).collect::<String>()},"expected":format!("exit {}", first.1),"observed":format!("exit {}", st)}));
+                            break;
+                        }
+                    }
+                }
+            }
+        }
+        cleanup_workdirs();
+        rep.extra.insert("test_command_permutation_runs".into(), json!(tp));
+    }
     rep.states = res.acc.traces;
     rep.transitions = res.acc.nontrivial + b.transitions;
     if res.capped {
